@@ -155,6 +155,10 @@ func strTruncateFunc(_ *ctx.EvalCtx, receiver object.Object, args ...object.Obje
 		return &object.Str{Value: val}, nil
 	}
 
+	if limit < 0 {
+		limit = 0
+	}
+
 	ellipsis := "..."
 
 	if len(args) > 1 {
